@@ -28,7 +28,8 @@ type holdings struct {
 	ubd    map[string]math.Int       // delegator -> unbonding balance
 	tips   map[string]math.LegacyDec // selector -> reward credit
 	sel    map[string]string         // selector -> reporter
-	refund map[string]math.Int       // "dispute id|payer" -> recorded dispute-fee payment still awaiting its refund
+	refund map[string]math.Int       // "dispute id|payer" -> recorded dispute-fee payment (from balance) still awaiting its refund
+	disp   math.Int                  // balance of the dispute module account
 }
 
 type privState struct {
@@ -75,9 +76,13 @@ func takeHoldings(c *Chain, ctx sdk.Context) holdings {
 	h.tips, _ = selectorTips(c, ctx)
 	h.refund = map[string]math.Int{}
 	_ = c.App.DisputeKeeper.DisputeFeePayer.Walk(ctx, nil, func(k collections.Pair[uint64, []byte], p disputetypes.PayerInfo) (bool, error) {
-		h.refund[fmt.Sprintf("%d|%s", k.K1(), sdk.AccAddress(k.K2()).String())] = p.Amount
+		// a fee paid from stake is returned to the stake it was taken from (the payer's selectors), not to the payer
+		if !p.FromBond {
+			h.refund[fmt.Sprintf("%d|%s", k.K1(), sdk.AccAddress(k.K2()).String())] = p.Amount
+		}
 		return false, nil
 	})
+	h.disp = modBal(c, ctx, disputetypes.ModuleName)
 	_ = c.App.ReporterKeeper.Selectors.Walk(ctx, nil, func(k []byte, s reportertypes.Selection) (bool, error) {
 		h.sel[sdk.AccAddress(k).String()] = sdk.AccAddress(s.Reporter).String()
 		return false, nil
@@ -295,19 +300,11 @@ func (m *C19Monitor) AfterTx(c *Chain, ctx sdk.Context, tx sdk.Tx, ok bool) {
 		if signers[payer] {
 			continue
 		}
-		gotPayer := get(after.bal, payer).Add(get(after.staked, payer)).Sub(get(m.h.bal, payer).Add(get(m.h.staked, payer)))
-		signerGain := math.ZeroInt()
-		fee := math.ZeroInt()
-		if ft, ok := tx.(sdk.FeeTx); ok {
-			fee = ft.GetFee().AmountOf(Denom)
-		}
-		for sgn := range signers {
-			signerGain = signerGain.Add(get(after.bal, sgn).Sub(get(m.h.bal, sgn)))
-		}
-		signerGain = signerGain.Add(fee)
-		m.st.Bucket("c19|refund-consumed-by-non-payer|payer-received=%v|signer-gained=%v", gotPayer.IsPositive(), signerGain.IsPositive())
-		if !gotPayer.IsPositive() && signerGain.IsPositive() {
-			c.Violate("C19", "c19", "fee-refund-of-non-signer-paid-to-signer:"+name, map[string]interface{}{"record": k, "recorded_amount": amt.String(), "payer_received": gotPayer.String(), "signer_gained": signerGain.String()})
+		gotPayer := get(after.bal, payer).Sub(get(m.h.bal, payer))
+		paidOut := m.h.disp.Sub(after.disp) // what left dispute escrow in this transaction
+		m.st.Bucket("c19|refund-consumed-by-non-payer|payer-received=%v|escrow-paid-out=%v", gotPayer.IsPositive(), paidOut.GT(math.NewInt(3)))
+		if !gotPayer.IsPositive() && paidOut.GT(math.NewInt(3)) {
+			c.Violate("C19", "c19", "fee-refund-of-non-signer-not-paid-to-the-payer:"+name, map[string]interface{}{"record": k, "recorded_amount": amt.String(), "payer_received": gotPayer.String(), "left_dispute_escrow": paidOut.String()})
 		}
 	}
 	m.st.Bucket("c19|tx|%s|signers=%d|exceptions=%d", name, len(signers), minInt(len(allowed), 3))
